@@ -123,6 +123,23 @@ func c11(p *core.Program, r *core.Report) {
 	})
 	footprintRule(p, r, "segment-coverage", [][2]string{{"xy/internal/raycrossing", "LocatePointInRing"}, {"xy", "IsOnLine"}})
 
+	const rw = "planar-compare-xy-only"
+	r.Rule(rw, "no function of the planar packages (xy, xy/internal/..., xy/lineintersector, bigxy) compares two coordinate slices as wholes, length included (slices.Equal/Compare/EqualFunc, reflect.DeepEqual): a test point or vertex may carry Z/M ordinates (point.Coords() of an XYZ point), and the planar predicates are defined on ordinates 0 and 1 only - the zero count is guarded by a fixture function that must be reported on every run", 0)
+	{
+		nfn := 0
+		for _, rel := range []string{"xy", "xy/internal", "xy/internal/raycrossing", "xy/internal/robustdeterminate", "xy/internal/hcoords", "xy/internal/centralendpoint", "xy/lineintersector", "xy/location", "xy/orientation", "bigxy"} {
+			if p.Pkg(rel) == nil {
+				continue
+			}
+			for _, fn := range pkgFuncs(p, rel) {
+				nfn++
+				for i, c := range wholeSliceCompares(fn) {
+					r.Bad(rw, fmt.Sprintf("%s/compare#%d", short(fn), i+1), p.Pos(c.Pos()), "two coordinates are compared as whole slices ("+eng.CalleeObj(c).Pkg().Name()+"."+eng.CalleeObj(c).Name()+"): a point with extra ordinates is never equal to a two-ordinate vertex, so a point on a vertex is classified by the crossing count instead of as boundary")
+				}
+			}
+		}
+		r.Count("planar_functions_scanned", nfn)
+	}
 	crossingConventionRule(p, r, "crossing-convention")
 	pointOnLineRule(p, r, "on-line-exact-predicate")
 	const rx = "ray-crossing-exact-predicate"
